@@ -42,7 +42,20 @@ func (vc *VC) lockOp(fr *Frame, recv SV, mode int, acquire bool, pos token.Pos) 
 		return
 	}
 	if vc.st.Locks[key] != mode {
-		vc.oblige("lock:release-not-held", []string{"C08"}, "false")
+		// the same mutex may be named by a syntactically different (but equal) reference
+		prefix := fmt.Sprintf("%s#%d@", lv.TK, lv.Leaf)
+		var cands []string
+		for k, m := range vc.st.Locks {
+			if strings.HasPrefix(k, prefix) && m == mode {
+				cands = append(cands, k)
+			}
+		}
+		if len(cands) == 1 {
+			vc.oblige("lock:release-same-instance", []string{"C08"}, eq(lv.Ref, strings.TrimPrefix(cands[0], prefix)))
+			key = cands[0]
+		} else {
+			vc.oblige("lock:release-not-held", []string{"C08"}, "false")
+		}
 	}
 	if li != nil {
 		vc.lockRelease(li, lv, mode)
@@ -228,7 +241,30 @@ func (vc *VC) loadMeta(fr *Frame, lv *LVal, out *SV) {
 	}
 }
 
-func (vc *VC) noteCallback(fr *Frame, c *ssa.CallCommon, args []SV, fnv *SV) {}
+// noteCallback counts the invocation of a function value whose target is not known
+// (a user callback or a closure stored in a field): per function value, the total
+// number of calls and the number of calls with a given first argument.
+func (vc *VC) noteCallback(fr *Frame, c *ssa.CallCommon, args []SV, fnv *SV) {
+	if vc.pure > 0 || fnv == nil {
+		return
+	}
+	f := fnv.L[0]
+	one := bvLitI(1, 64)
+	// counters are kept per function type: values of different func types never alias
+	sk := typeKey(c.Signature())
+	tot := vc.heapGet("CB:total:"+sk, chIdxSort)
+	vc.heapSet("CB:total:"+sk, chIdxSort, sto(tot, f, "(bvadd "+sel(tot, f)+" "+one+")"))
+	if len(args) > 0 && len(args[0].L) > 0 {
+		sig := c.Signature()
+		ls := vc.eng.layoutOf(sig.Params().At(0).Type()).L
+		srt := ls[0].Sort
+		name := "CB:with:" + sk
+		sort := "(Array Int (Array " + srt + " (_ BitVec 64)))"
+		h := vc.heapGet(name, sort)
+		a := args[0].L[0]
+		vc.heapSet(name, sort, sto(h, f, sto(sel(h, f), a, "(bvadd "+sel(sel(h, f), a)+" "+one+")")))
+	}
+}
 
 // ---- goroutines and channels ----------------------------------------------------------
 
